@@ -55,6 +55,11 @@ def instances(tier, seed):
             if wtype == 'layer' and not s.get('bn'):
                 # hard-sampling mode reached through an option update while training (the statement: "eval or hard-sampling mode")
                 out.append({'id': mpslib.prog_id(sp) + ':train+hard', 'spec': sp, 'wseed': seed, 'train_hard': True})
+    # the coefficients are written (through .data / in place) into a model whose cost and summary have already been read at the previous coefficients
+    for s in ({'fam': 'ML', 'bn': False}, {'fam': 'MD'}):
+        for hist in ('data', 'nograd'):
+            sp = dict(s, wtype='layer', w=[2, 8], a=[4, 8])
+            out.append({'id': mpslib.prog_id(sp) + f':after_use+{hist}', 'spec': sp, 'wseed': seed, 'hist': hist})
     return out
 
 
@@ -161,7 +166,9 @@ def concrete_case(rec):
             for name, q in mpslib.quantizers(m):
                 if 'w_mps_quantizer' not in name:
                     q.alpha.copy_(torch.tensor(rng.permutation(q.alpha.shape[0]).astype('float32') / 4).reshape(q.alpha.shape))
-    mpslib.set_alphas(m, rec['alphas'])
+    if rec.get('hist'):
+        _use(m, shape)
+    mpslib.set_alphas(m, rec['alphas'], rec.get('hist') or 'nograd')
     if rec.get('train_hard'):
         m.train()
         m.update_softmax_options(hard=True)
@@ -172,6 +179,14 @@ def concrete_case(rec):
     summ = m.summary()
     tot, per = exact_costs(spec, m, shape, summ)
     return got, tot, shown, per, summ
+
+
+def _use(m, shape):
+    with torch.no_grad():
+        m(torch.zeros((1,) + tuple(shape)))
+    for k in ('params_bit', 'ops_bit'):
+        m.get_cost(k)
+    m.summary()
 
 
 def replay(rec):
@@ -207,9 +222,11 @@ def run_instance(p):
                 if not only(name):
                     q.alpha.copy_(torch.tensor(rng.permutation(q.alpha.shape[0]).astype('float32') / 4).reshape(q.alpha.shape))
 
+    hist = p.get('hist')
+
     def fn(ex):
         pairs, sy = mpslib.fresh_alphas(m, ex, only=only, ties=bool(spec.get('ties')))
-        with SymMode(), swapped_params(pairs), mpslib.saved_thetas(m):
+        with SymMode(), mpslib.saved_thetas(m), (st.written_params(pairs, lambda: _use(m, shape), hist) if hist else swapped_params(pairs)):
             m(torch.zeros((1,) + tuple(shape)))           # eval mode: forks on every arg-max
             costs = {k: st.scalar_of(m.get_cost(k)) for k in ('params_bit', 'ops_bit')}
             shown = shown_counts(m)
@@ -246,7 +263,7 @@ def run_instance(p):
         alphas = mpslib.values_of(mm, sy)
         if not bad_here:
             if n <= 6 or n % 5 == 0:
-                got, tot_c, shown_c, per_c, summ_c = concrete_case({'spec': spec, 'wseed': wseed, 'alphas': jsonable(alphas), 'train_hard': p.get('train_hard', False)})
+                got, tot_c, shown_c, per_c, summ_c = concrete_case({'spec': spec, 'wseed': wseed, 'alphas': jsonable(alphas), 'train_hard': p.get('train_hard', False), 'hist': hist})
                 if n <= 2:
                     res.sample({'program': mpslib.prog_id(spec), 'alphas': alphas, 'summary': summ, 'cost': got, 'exact': tot_c})
                 if all(abs(got[k] - tot_c[k]) <= 1e-4 * max(1, tot_c[k]) for k in got) and summ_c == summ:
@@ -262,10 +279,10 @@ def run_instance(p):
             if obs in tot:
                 cv = st.model_value(mm, costs[obs]) if st.is_sym(costs[obs]) else costs[obs]
                 direction = '|cost<exact' if cv < tot[obs] else '|cost>exact'
-            key = ('train+hard|' if p.get('train_hard') else '') + f'{obs}|layer:{lt}|search:{"per_channel+0bit" if zero else ("per_channel" if spec["wtype"] == "channel" else "per_layer")}|{mpslib.prog_id(spec)}{direction}' + ('|selftest' if selftest else '')
+            key = ('train+hard|' if p.get('train_hard') else '') + (f'after_use+{hist}|' if hist else '') + f'{obs}|layer:{lt}|search:{"per_channel+0bit" if zero else ("per_channel" if spec["wtype"] == "channel" else "per_layer")}|{mpslib.prog_id(spec)}{direction}' + ('|selftest' if selftest else '')
             if any(v['key'] == key for v in res.violations):
                 continue
-            rec = {'spec': spec, 'wseed': wseed, 'alphas': alphas, 'observable': obs, 'layer': layer, 'key': key, 'summary': summ, 'train_hard': p.get('train_hard', False),
+            rec = {'spec': spec, 'wseed': wseed, 'alphas': alphas, 'observable': obs, 'layer': layer, 'key': key, 'summary': summ, 'train_hard': p.get('train_hard', False), 'hist': hist,
                    'what': f'{mpslib.prog_id(spec)}: {obs} {layer or ""}: cost/shown value {costs.get(obs) if obs in costs else shown[layer][obs.split("_")[1]]} but exact {tot.get(obs) if obs in tot else per[layer]} at summary {summ}'[:600]}
             if selftest:
                 res.violations.append(jsonable(rec))
